@@ -1,4 +1,108 @@
 package main
 
-func checkC03Routing(c *Check) {}
-func checkC14Routing(c *Check) {}
+// Routing: the places that must hand a chain to the profile validators do so
+// (C03.C / C14.C).
+
+import (
+	"go/types"
+	"strings"
+)
+
+const tsValidator = "ncg/x509.ValidateTimestampingCertChain"
+
+func purposeConst(c *Check, name string) string {
+	for path, pk := range c.P.All {
+		if strings.HasSuffix(path, "/revocation/purpose") && pk.Types != nil {
+			if k, ok := pk.Types.Scope().Lookup(name).(*types.Const); ok {
+				return k.Val().String()
+			}
+		}
+	}
+	c.undecided("anchor", "purpose."+name, "constant not found", "")
+	return "?"
+}
+
+// chainValidatorDispatch: x509util.ValidateChain returns nil only through the
+// validator of the requested purpose.
+func chainValidatorDispatch(c *Check, rule, purposeName, atom string) {
+	vpg := c.pgOfNI(chainValFn, csValidator, tsValidator)
+	if vpg == nil {
+		return
+	}
+	k := purposeConst(c, purposeName)
+	ok := returnsWhere(vpg, func(s *PState) bool { return retNilErr(s, 0) })
+	c.floor("ValidateChain success returns", 1, len(ok))
+	c.mustPass(vpg, rule, "revocation chain check passes only through a profile validator", "ValidateChain returns nil", ok, AnyOf(A("+IsNil("+csValidator+"(p0, nil))"), A("+IsNil("+tsValidator+"(p0))")))
+	c.noPathFrom(vpg, rule, "purpose "+purposeName+" is validated with its own profile", "for purpose "+purposeName+" ValidateChain returns nil only if the "+purposeName+" profile validator accepted the chain", A("+Eq("+k+", p1)"), ok, ptr(A(atom)))
+}
+
+// fanoutRouting: both revocation entry points validate the chain with the
+// caller's purpose before anything else (shared with O-C12.1).
+func fanoutRouting(c *Check, rule string) {
+	if fn := validatorMethod(c); fn != "" {
+		if pg := c.pgOfNI(fn, ocspCheckFn, crlCheckFn, chainValFn); pg != nil {
+			ok := returnsWhere(pg, func(s *PState) bool { return retNilErr(s, 1) })
+			c.mustPass(pg, rule, "revocation validator: chain validated for the configured purpose", "ValidateContext returns results", ok, A("+IsNil("+chainValFn+"(p1.CertChain, recv.certChainPurpose))"))
+		}
+		if npg := c.pgOf(newWithOpts); npg != nil {
+			good := false
+			for _, s := range npg.Returns() {
+				if !retNilErr(s, 1) {
+					continue
+				}
+				t := s.Ret[0].T
+				if t.Op == "addr" && t.Args[0].Op == "struct" {
+					if v := structGet(t.Args[0], "certChainPurpose"); v != nil && v.Key() == "p0.CertChainPurpose" {
+						good = true
+					} else {
+						good = false
+						break
+					}
+				}
+			}
+			c.add(rule, "revocation validator: purpose taken from the options", "NewWithOptions stores the caller's CertChainPurpose as the purpose the chain is validated for", good, c.P.pos(npg.G.Root.Decl.Pos()))
+		}
+	}
+	if pg := c.pgOfNI(standalone, ocspCheckFn, chainValFn); pg != nil {
+		ok := returnsWhere(pg, func(s *PState) bool { return retNilErr(s, 1) })
+		c.mustPass(pg, rule, "standalone OCSP: chain validated for the caller's purpose", "CheckStatus returns results", ok, A("+IsNil("+chainValFn+"(p0.CertChain, p0.CertChainPurpose))"))
+	}
+}
+
+func checkC03Routing(c *Check) {
+	rule := "O-C03.C"
+	// the envelope wrapper
+	for _, w := range []struct{ fn, inner, timeArg string }{
+		{baseSign, "Content", "TIME"}, {baseVerify, "Verify", "nil"}, {baseContent, "Content", "nil"},
+	} {
+		pg := c.pgOfNI(w.fn, csValidator)
+		if pg == nil {
+			continue
+		}
+		ct := "(ncg/signature.Envelope)." + w.inner + "(recv.Envelope)#0"
+		si := ct + ".SignerInfo"
+		ta := w.timeArg
+		if ta == "TIME" {
+			ta = "&" + si + ".SignedAttributes.SigningTime"
+		}
+		ok := returnsWhere(pg, func(s *PState) bool { return retNilErr(s, 1) })
+		short := w.fn[strings.LastIndex(w.fn, ".")+1:]
+		for _, r := range chainCheckReqs(si+".CertificateChain", ta, si+".SignatureAlgorithm")[:2] {
+			c.mustPass(pg, rule, "wrapper "+short+": "+r.name, "the wrapper's "+short+" succeeds", ok, r.lp)
+		}
+	}
+	chainValidatorDispatch(c, rule, "CodeSigning", "+IsNil("+csValidator+"(p0, nil))")
+	fanoutRouting(c, rule)
+}
+
+func checkC14Routing(c *Check) {
+	rule := "O-C14.C"
+	chainValidatorDispatch(c, rule, "Timestamping", "+IsNil("+tsValidator+"(p0))")
+	fanoutRouting(c, rule)
+	// the timestamp helper validates the chain returned by the token verification
+	if pg := c.pgOfNI("ncg/internal/timestamp.Timestamp", tsValidator); pg != nil {
+		ok := returnsWhere(pg, func(s *PState) bool { return retNilErr(s, 1) })
+		c.floor("timestamp.Timestamp success returns", 1, len(ok))
+		c.mustPass(pg, rule, "timestamp: TSA chain validated with the timestamping profile", "a timestamp token is returned", ok, AG("+IsNil("+tsValidator+"((*github.com/notaryproject/tspclient-go.SignedToken).Verify(**)#0))"))
+	}
+}
